@@ -48,6 +48,7 @@ class World:
     rule = ""
     assumptions: list[str] = []
     fault_kinds: list[str] = []
+    tier = "quick"
     selftest_n = dict(quick=(24, 16), thorough=(200, 64))  # (re-executions, fresh-interpreter runs)
 
     def setup_node(self):
@@ -442,6 +443,7 @@ def main(world: World, argv):
     t0 = time.monotonic()
     try:
         check_repo_import()
+        world.tier = a.tier
         ctl = Controller(world, a.tier, seed, a.workers)
         if a.digests:
             idx = [int(x) for x in a.digests.split(",")]
